@@ -88,8 +88,20 @@ def build_history(rng: random.Random):
         # two prefixes that name different namespaces but the same files (A.B / A_B)
         cfgs.append(dict(enc, prefix=['QZTwin', 'QZNs']))
         cfgs.append(dict(enc, prefix=['QZTwin_QZNs']))
+        # sizes beyond the usual: two different long model file names (97+ characters), long
+        # prefixes that differ in their last identifier only, long one-line texts
+        for _k in range(2):
+            big = dict(enc)
+            cfggen.enlarge(rng, big)
+            cfgs.append(big)
         models.append({'doc': M.to_json(gen.model), 'cfgs': cfgs})
     steps = []
+    for m, model in enumerate(models):
+        # both long-named configurations of every model are built, in this order
+        steps.append({'model': m, 'cfg': len(model['cfgs']) - 2, 'reuse_builder': bool(m % 2),
+                      'reuse_cfg_object': False, 'edit_cfg_object': False})
+        steps.append({'model': m, 'cfg': len(model['cfgs']) - 1, 'reuse_builder': bool(m % 2),
+                      'reuse_cfg_object': False, 'edit_cfg_object': False})
     for _ in range(rng.randint(3, 12)):
         m = rng.randrange(n_models)
         steps.append({'model': m, 'cfg': rng.randrange(len(models[m]['cfgs'])),
